@@ -4,19 +4,22 @@ NOTE = ("dt_strf/dt_strf_ical/dt_strp, idiff_strf/idiff_strp, range_strf/range_s
         "printer produces (or, for the spelling obligation, a [+|-]P[nW][nD][T[nH][nM][nS]] text built from symbolic "
         "component values).")
 ASSUMPTIONS = ["instants valid, 1901..2099, seconds 0..60", "durations whole seconds (the print form has no sub-second digits)",
-               "spelling components: weeks <= 520, days <= 3660, hours/minutes <= 999, seconds <= 9999"]
+               "spelling components: 1..3 digits each"]
 CK = ['--bounds-check', '--pointer-check', '--div-by-zero-check']
 def ob(name, defs, **kw):
     o = dict(name=name, src='h_strpf.c', defs=defs, units=['src/instant.c'], incl=['src/dt-strpf.c'], replay_units='all', unwind=12,
-             unwindset={'harness.0': 65}, solver='kissat', timeout=600, mem_gb=6, checks=CK)
+             unwindset={'harness.0': 65, 'sym_load.*': 17}, solver='kissat', timeout=600, mem_gb=6, checks=CK)
     o.update(kw)
     return o
 OBLIGATIONS = [
     ob('dt_iso_roundtrip', ['DT_ISO'], enc=['dt_strf', 'dt_strp', 'ui32tpstr'], sym='all fields of the instant, its kind, NUL-terminated vs explicit length',
        bounds='every valid instant 1901..2099 (date-only, second and millisecond resolution)'),
     ob('dt_ical_roundtrip', ['DT_ICAL'], enc=['dt_strf_ical', 'dt_strp', 'ui32tpstr'], sym='all fields of the instant, its kind', bounds='every valid date-only / second-resolution instant'),
-    ob('idiff_roundtrip', ['IDIFF', 'DMAX=4000'], enc=['idiff_strf', 'idiff_strp', 'ui32tostr', 'ilog10_ceil', 'ilog2_ceil'], sym='the duration', bounds='0 .. 4000 days in whole seconds'),
-    ob('idiff_spellings', ['SPELL'], enc=['idiff_strp'], sym='component values, which components are present, leading sign', bounds='see assumptions'),
+    ob('idiff_roundtrip_days', ['IDIFF', 'DMAX=4000', 'DAYSONLY'], enc=['idiff_strf', 'idiff_strp', 'ui32tostr', 'ilog10_ceil', 'ilog2_ceil'], sym='the number of days', bounds='0 .. 4000 whole days'),
+    ob('idiff_roundtrip_subday', ['IDIFF', 'SUBDAY'], enc=['idiff_strf', 'idiff_strp', 'ui32tostr', 'ilog10_ceil'], sym='hours, minutes, seconds', bounds='every whole-second duration below one day'),
+    ob('idiff_roundtrip', ['IDIFF', 'DMAX=4000'], enc=['idiff_strf', 'idiff_strp', 'ui32tostr', 'ilog10_ceil', 'ilog2_ceil'], sym='the duration', bounds='0 .. 4000 days in whole seconds', tiers=('thorough',), timeout=3400),
+    ob('idiff_spellings', ['SPELL'], enc=['idiff_strp'], sym='15 digits, digit counts, which components are present, leading sign',
+       bounds='components of 1..3 digits each (weeks, days, hours, minutes, seconds up to 999)', unwindset={'harness.*': 65, 'idiff_strp.*': 5, 'sym_load.*': 17}),
     ob('range_roundtrip', ['RANGE'], enc=['range_strf', 'range_strp', 'dt_strf', 'dt_strp'], sym='both instants', bounds='every pair of valid instants'),
     ob('ui32tostr_digits', ['DIGITS'], enc=['ui32tostr', 'ilog10_ceil', 'ilog2_ceil'], sym='the 32-bit value', bounds='all values 1..2^32-1'),
 ]
